@@ -1,4 +1,7 @@
 import BbRe.Lemmas.SchedLiveRun
+import BbRe.Lemmas.SchedLiveResp
+import BbRe.Lemmas.SchedLiveTerm
+import BbRe.Lemmas.SchedLiveSleep
 /-!
 # C02 — each waiter gets exactly one faithful final result
 
@@ -126,7 +129,55 @@ example : sDemo.streams.any (fun st => match sDemo.op? st.op with
       | none => false)
     | none => false) = true := by decide
 
+/-- **no_lost_wakeup (blocked `TerminateWorkers` calls).**  In every reachable state each captured
+`(task, generation)` pair is not ahead of the task's generation, and once the task is no longer executing
+(detached from its worker, or completed) its generation has moved on: the captured channel is closed and
+the call's wake-up is enabled (`BbRe.Properties.C06.terminate_wakes`). -/
+theorem no_lost_wakeup_terminate (s : State) (hs : Reachable s) (tc : TermCall) (htc : tc ∈ s.terms)
+    (tg : Nat × Nat) (htg : tg ∈ tc.waits) (tk : Task) (htk : s.task? tg.1 = some tk) :
+    tg.2 ≤ tk.gen ∧ ((tk.worker = none ∨ tk.response.isSome = true) → tg.2 < tk.gen) :=
+  (termInv_reachable hs tc htc tg htg).2 tk htk
+
+/-- **no_lost_wakeup (workers).**  In every reachable state a worker whose wakeup channel was closed is
+inside `Synchronize`, is no longer queued as idle and is not waiting for an undrain; a worker queued as idle
+is inside `Synchronize`, not yet woken and holds no task. -/
+theorem no_lost_wakeup_workers (s : State) (hs : Reachable s) (wk : Worker) (hm : wk ∈ s.workers) :
+    (wk.woken = true → wk.inSync = true ∧ wk.parked = false ∧ wk.drainWait = none) ∧
+    (wk.parked = true → wk.inSync = true ∧ wk.woken = false ∧ wk.task = none) := by
+  have hok := (winv_reachable hs).ok wk hm
+  exact ⟨hok.woken, fun hp => ⟨(hok.parked hp).1, (hok.parked hp).2.1, (hok.parked hp).2.2.1⟩⟩
+
+/-- **The hand-off is signalled.**  When `task.schedule` hands a task to a parked worker (the only way a
+blocked `Synchronize` gets work), that worker afterwards holds the task, is no longer queued as idle, and its
+wakeup channel is closed — so its wake-up segment is enabled (`BbRe.Properties.C06.woken_worker_wakes`). -/
+theorem handoff_signalled (h : Hints) (s s' : State) (hs : Reachable s) (tid : Nat)
+    (hh : schedule h s tid = .ok s') :
+    s'.assigned = s.assigned ∨
+    ∃ q w wk, s'.assigned = (q, w, tid) :: s.assigned ∧ s'.worker? q w = some wk ∧ wk.task = some tid ∧
+      wk.parked = false ∧ wk.woken = true ∧ wk.inSync = true :=
+  schedule_handoff hh (winv_reachable hs) (fun t ht => ((keysOK_reachable hs).tid tid t ht).1)
+
 /-! ## (c) faithful -/
+
+/-- **faithful (provenance).**  A response that a segment newly stores in a task is either made by the
+scheduler itself — its cause is one of `workerDisappeared`, `noWaiters`, `killed`, `retryLimit`,
+`queueRemoved` (never `worker`) and it carries no payload — or it is exactly the response passed by a
+`Synchronize(Completed d r)` segment of a worker `(q, w)` that the scheduler, at that point of the segment,
+believed to be running this very task with the reported digest `d`. -/
+theorem faithful (s s' : State) (hs : Reachable s) (g : Seg) (hstep : step s g = .ok s') (k : Nat) (t' : Task)
+    (r : Resp) (ht' : s'.task? k = some t') (hr : t'.response = some r)
+    (hnew : ∀ t, s.task? k = some t → t.response ≠ some r) :
+    (r.cause ≠ .worker ∧ r.tok = 0 ∧ r.exit = 0) ∨
+    ∃ h now q comps pf w d pi, g = .sync h now q comps pf w (.completed d r) pi ∧
+      ∃ (s3 : State) (wk : Worker), s3.worker? q w = some wk ∧ wk.task = some k ∧
+        ∃ t : Task, s3.task? k = some t ∧ t.digest = d := by
+  obtain ⟨_, rf⟩ := step_rt hstep (keysOK_reachable hs)
+  rcases rf k t' r ht' hr with ⟨t, e1, e2⟩ | h | ⟨h, now, q, comps, pf, w, rep, pi, rfl, d, rfl, s3, wk, e1, e2, tid, t, e3, e4, e5⟩
+  · exact absurd e2 (hnew t e1)
+  · exact .inl h
+  · refine .inr ⟨h, now, q, comps, pf, w, d, pi, rfl, s3, wk, e1, e2, t, ?_, e5⟩
+    rw [e2] at e3; injection e3 with e3; subst e3; exact e4
+
 
 /-- **response set once.**  Once a task stores a response it keeps exactly that response along
 every run (so every `done` message of every waiter carries the same `(code, tok)`, see `send_done`). -/
